@@ -81,7 +81,7 @@ def flow_b(ctx, mine, n, salt, kinds=("edited",)):
                 s = apply_edits(w, es)
                 only_subs = all(e["op"] == "S" for e in es)
                 indel = True if not only_subs else rng.choice([True, False])
-                heap = 0
+                heap = -1
                 ww = w
             elif kind == "long":
                 es, ww = [], []
@@ -92,7 +92,7 @@ def flow_b(ctx, mine, n, salt, kinds=("edited",)):
                     p += rng.randint(10, 13)
                 indel, heap = rng.choice([True, False]), 1000
             elif kind == "clean":
-                es, s, indel, heap, ww = [], list(w), rng.choice([True, False]), rng.choice([1, 3, 1000]), []
+                es, s, indel, heap, ww = [], list(w), rng.choice([True, False]), rng.choice([0, 1, 3, 1000]), []
             else:   # anywhere: errors in the first / last window, random strings, dense errors
                 es, ww = [], []
                 s = list(w)
@@ -106,7 +106,7 @@ def flow_b(ctx, mine, n, salt, kinds=("edited",)):
                 else:
                     for p in range(0, len(s), rng.randint(2, 9)):
                         s[p] = rng.randrange(4)
-                indel, heap = rng.choice([True, False]), rng.choice([1, 3, 1000, 1000])     # a finite heap limit bounds the candidate product
+                indel, heap = rng.choice([True, False]), rng.choice([0, 1, 3, 1000, 1000])     # a finite heap limit bounds the candidate product
             vtmode = rng.choice(["none", "right", "wrong"]) if kind != "edited" else rng.choice(["none", "right"])
             vt = []
             if vtmode != "none":
